@@ -341,6 +341,9 @@ pub struct Sim {
     /// Entities despawned on the server (to recognise stale references).
     pub dead: BTreeSet<u64>,
     pub harness_error: Option<String>,
+    /// Messages of the library that the independent decoder could not parse. The run goes on (without the
+    /// decoder-based bookkeeping for them); they count as a harness error only if no oracle fires.
+    pub decode_errors: Vec<String>,
     /// Largest allocation request seen in a server frame without / with injected input.
     pub max_alloc_clean: usize,
     pub max_alloc_inject: usize,
@@ -433,6 +436,7 @@ impl Sim {
             progressed: false,
             dead: BTreeSet::new(),
             harness_error: None,
+            decode_errors: vec![],
             max_alloc_clean: 0,
             max_alloc_inject: 0,
             inject_len: 0,
